@@ -16,12 +16,18 @@ THOROUGH_N = 60000
 QUICK_BUDGET_S = 80
 THOROUGH_BUDGET_S = 900
 RULE = ("tempo lists of 1-12 changes (bpm from the exactly-representable set or arbitrary doubles, metronomes 1-8, "
-        "initial offset of both signs), 0-60 queries in random order with duplicates; claims offsets/roundtrip/snap/beats, "
-        "float and exact arithmetic modes; non-trivial = at least 2 tempo changes and a query beyond the first change, "
-        "or a snap input off the grid")
+        "pure time-signature changes that repeat the bpm, initial offset of both signs), handed over through every entry "
+        "point (from_bpm_changes_snap, from_bpm_changes_offset, TimingMap(...), BpmList.to_timing_map) in original / "
+        "reversed / shuffled list order; 0-60 queries in random order with duplicates; claims offsets/roundtrip/snap/"
+        "beats, float and exact arithmetic modes; snap inputs include exact midpoints of neighbouring grid doubles; "
+        "non-trivial = at least 2 tempo changes and a query beyond the first change, or a snap input off the grid")
 ASSUMPTIONS = [
     "exact mode swaps RAConst.MIN_TO_MSEC for Fraction(60000) at run time (duck typing through the same code paths)",
     "Python's bisect.bisect_left and numpy argsort are modelled (binary search; any sorting permutation)",
+    "for the from_bpm_changes_offset / TimingMap(...) / BpmList entry points the harness computes the change times "
+    "(exact rationals, rounded to doubles in float mode) and feeds the model the exact values handed to the code",
+    "float-mode snap cases are also compared, for equality, with the model run on the exact values of the doubles "
+    "n/d (Sterbenz: the code's two subtractions are exact there), which pins the tie rule",
 ]
 
 E_BPMS = [50, 60, 75, 100, 120, 125, 128, 150, 160, 200, 240, 250, 300, 375, 37.5, 62.5, 93.75, 187.5, 480, 600]
@@ -66,6 +72,8 @@ def gen_changes(rng, compatible=True, max_n=12, const_met=False):
             bpm = Fr(round(rng.uniform(20, 600), rng.choice([0, 1, 3, 6])))
             if bpm <= 0:
                 bpm = Fr(120)
+        if i > 0 and rng.random() < 0.3:
+            bpm = F(out[-1]["bpm"])      # a point that repeats the bpm (pure time-signature change / no-op point)
         if i > 0:
             # advance
             adv_m = rng.choice([0, 0, 1, 1, 2, 5])
@@ -106,9 +114,31 @@ def gen_queries(rng, cs, maxq=60):
             m = rng.randint(0, last + 3)
             den = rng.choice(DENS + [5, 7, 9, 64, 192, 1000])
             b = Fr(rng.randrange(0, 8 * den), den)
-        met = rng.choice([None, None, "active"])
+        # metronome carried by the query: none (no normalisation), the active one, or any other (Snap(...) then
+        # normalises with a metronome that is not the one in force - still a legal position)
+        met = rng.choice([None, None, "active", "active", rng.randint(1, 8)])
         qs.append(dict(measure=m, beat=R(b), met=met))
     return qs
+
+
+ENTRIES = ["snap", "snap", "offset", "offset", "raw", "bpmlist", "bpmlist"]
+
+
+def gen_entry(rng, cs, mode):
+    """how the tempo list reaches the code: constructor and list order (key `k` per change = rank in the handed list)"""
+    entry = rng.choice(ENTRIES)
+    if entry == "bpmlist":
+        mode = "float"           # BpmList columns are float64
+    n = len(cs)
+    how = rng.choice(["orig", "rev", "shuf", "shuf"])
+    ks = list(range(n))
+    if how == "rev":
+        ks.reverse()
+    elif how == "shuf":
+        rng.shuffle(ks)
+    for c, k in zip(cs, ks):
+        c["k"] = k
+    return entry, mode
 
 
 def gen(rng, tier, i):
@@ -118,21 +148,50 @@ def gen(rng, tier, i):
         compatible = rng.random() < 0.85
         cs = gen_changes(rng, compatible)
         t0 = Fr(rng.choice([0, 0, -1000, 1234, -37.5, 250000.125, rng.uniform(-5000, 5000)]))
-        return dict(claim="offsets", mode=mode, t0=R(t0), cs=cs, qs=gen_queries(rng, cs))
+        entry, mode = gen_entry(rng, cs, mode)
+        return dict(claim="offsets", mode=mode, entry=entry, t0=R(t0), cs=cs, qs=gen_queries(rng, cs))
     if r < 0.65:
         compatible = rng.random() < 0.85
         cs = gen_changes(rng, compatible)
         t0 = Fr(rng.choice([0, -1000, 1234, -37.5, rng.uniform(-5000, 5000)]))
         ts = gen_times(rng, cs, t0)
-        return dict(claim="roundtrip", mode=mode, t0=R(t0), cs=cs, ts=ts)
+        entry, mode = gen_entry(rng, cs, mode)
+        return dict(claim="roundtrip", mode=mode, entry=entry, t0=R(t0), cs=cs, ts=ts)
     if r < 0.85:
         return dict(claim="snap", mode=mode, x=R(gen_snap_value(rng)))
     cs = gen_changes(rng, rng.random() < 0.85, const_met=True)
     t0 = Fr(rng.choice([0, -1000, 1234, rng.uniform(-5000, 5000)]))
-    return dict(claim="beats", mode=mode, t0=R(t0), cs=cs, ts=gen_times(rng, cs, t0))
+    entry, mode = gen_entry(rng, cs, mode)
+    return dict(claim="beats", mode=mode, entry=entry, t0=R(t0), cs=cs, ts=gen_times(rng, cs, t0))
+
+
+_GRID = None
+
+
+def py_grid():
+    """Farey(96) + [1], computed here (not taken from the Snapper): exact values G and the doubles n/d as exact
+    rationals FG (same index)."""
+    global _GRID
+    if _GRID is None:
+        G = sorted({Fr(n, d) for d in range(1, 97) for n in range(0, d)}) + [Fr(1)]
+        FG = [Fr(g.numerator / g.denominator) for g in G]
+        assert all(a < b for a, b in zip(FG[:-1], FG[1:]))
+        _GRID = (G, FG, {v: i for i, v in enumerate(FG)}, [R(v) for v in FG])
+    return _GRID
 
 
 def gen_snap_value(rng):
+    r = rng.random()
+    if r < 0.2:
+        # exact midpoint of two neighbouring grid doubles (a true tie for the code when it is a double itself),
+        # or one ulp-ish away from it
+        G, FG, _, _ = py_grid()
+        i = rng.randrange(len(FG) - 1)
+        x = (FG[i] + FG[i + 1]) / 2
+        x = Fr(float(x))
+        if rng.random() < 0.3:
+            x = Fr(math.nextafter(float(x), rng.choice([0.0, 1.0])))
+        return x + rng.choice([0, 0, 0, 1, 2])
     r = rng.random()
     if r < 0.3:
         d = rng.randint(1, 96)
@@ -197,6 +256,24 @@ def corpus():
                   ts=[R(0), R(250), R(Fr(1000, 3)), R(123.456)]))
     c.append(dict(claim="roundtrip", mode="float", t0=R(100), cs=[dict(bpm=R(120), met=4, measure=0, beat=R(0))],
                   ts=[R(50)]))   # before the first change: IndexError class
+    # pure time-signature change (same bpm, 4/4 -> 3/4) followed by a tempo change, through every entry point,
+    # rows handed over in reversed order
+    ts_cs = [dict(bpm=R(120), met=4, measure=0, beat=R(0), k=2), dict(bpm=R(120), met=3, measure=1, beat=R(0), k=1),
+             dict(bpm=R(200), met=3, measure=3, beat=R(0), k=0)]
+    for entry in ("snap", "offset", "raw", "bpmlist"):
+        c.append(dict(claim="offsets", mode="float", entry=entry, t0=R(0), cs=[dict(x) for x in ts_cs],
+                      qs=[dict(measure=2, beat=R(0), met="active"), dict(measure=0, beat=R(1), met=None),
+                          dict(measure=4, beat=R(Fr(1, 2)), met="active"), dict(measure=1, beat=R(0), met=None)]))
+        c.append(dict(claim="roundtrip", mode="float", entry=entry, t0=R(0), cs=[dict(x) for x in ts_cs],
+                      ts=[R(3500), R(0), R(2000), R(5000), R(5150), R(1234)]))
+    c.append(dict(claim="beats", mode="exact", entry="offset", t0=R(-250),
+                  cs=[dict(bpm=R(120), met=4, measure=0, beat=R(0), k=1), dict(bpm=R(60), met=4, measure=1, beat=R(2), k=0)],
+                  ts=[R(4000), R(-250), R(2750), R(1000)]))
+    # exact midpoint of the doubles 1/2 and 49/97-neighbour: ties go right
+    G, FG, _, _ = py_grid()
+    i = G.index(Fr(1, 2))
+    c.append(dict(claim="snap", mode="float", x=R(Fr(float((FG[i - 1] + FG[i]) / 2)))))
+    c.append(dict(claim="snap", mode="float", x=R(Fr(float((FG[i] + FG[i + 1]) / 2)))))
     return c
 
 
@@ -216,6 +293,10 @@ def valid(case):
         for q in case.get("qs", []):
             if q["measure"] < 0 or F(q["beat"]) < 0:
                 return False
+        if case.get("entry", "snap") not in ("snap", "offset", "raw", "bpmlist"):
+            return False
+        if case.get("entry") == "bpmlist" and case["mode"] != "float":
+            return False
         return True
     except Exception:
         return False
@@ -275,6 +356,81 @@ def dom_of(drv, cs):
     return d
 
 
+def near_change_fn(case, mode):
+    """float mode: is a time within the float bridge's band (2^-40) of a tempo change's time?  There the code's
+    `bco.offset > offset` may fall on either side (its stored times carry rounding), and either segment is accepted
+    (DESIGN §3, discontinuities).  Never in exact mode."""
+    if mode != "float":
+        return lambda t: False
+    T = change_times(case["cs"], F(case["t0"]))
+    return lambda t: any(close(Fr(t), Ti) for Ti in T)
+
+
+def in_dom_of(dom):
+    """the hypotheses of offsets_correct / offsets_correct_any_order (queries are checked separately)"""
+    return bool(dom["wf"] and dom["strict"] and dom["first_at_zero"] and dom["sorted"] and dom["grid_compatible"]
+                and dom["metronome_ok"])
+
+
+def handed_rows(case, mode):
+    """(bpm, met, offset) triples in the order they are handed to the code, offsets as the numbers really passed"""
+    cs = case["cs"]
+    T = change_times(cs, F(case["t0"]))
+    rows = []
+    for c, t in zip(cs, T):
+        off = t if mode == "exact" else Fr(float(t))
+        rows.append((c.get("k", 0), F(c["bpm"]), c["met"], off))
+    rows.sort(key=lambda r: r[0])        # stable: equal / missing keys keep the original order
+    return [(b, m, o) for _, b, m, o in rows]
+
+
+def build_tm(case, mode):
+    """the real TimingMap through the entry point named by the case"""
+    RAConst, TimingMap, BpmChangeSnap, Snap, Snapper = _imports()
+    entry = case.get("entry", "snap")
+    if entry == "snap":
+        bcs = build_impl_changes(case["cs"], mode)
+        bcs = [b for _, b in sorted(zip([c.get("k", 0) for c in case["cs"]], bcs), key=lambda p: p[0])]
+        return TimingMap.from_bpm_changes_snap(num(case["t0"], mode), bcs, reseat=False)
+    from reamber.algorithms.timing.utils.BpmChangeOffset import BpmChangeOffset
+    rows = handed_rows(case, mode)
+    cv = (lambda v: v) if mode == "exact" else float
+    if entry == "offset":
+        return TimingMap.from_bpm_changes_offset([BpmChangeOffset(cv(b), m, cv(o)) for b, m, o in rows])
+    if entry == "raw":
+        return TimingMap(bpm_changes_offset=[BpmChangeOffset(cv(b), m, cv(o)) for b, m, o in rows])
+    if entry == "bpmlist":
+        from reamber.base.Bpm import Bpm
+        from reamber.base.lists.BpmList import BpmList
+        return BpmList([Bpm(offset=float(o), bpm=float(b), metronome=m) for b, m, o in rows]).to_timing_map()
+    raise ValueError(entry)
+
+
+def model_tm(case, drv, mode):
+    """the model's stored list for the same entry point ({"ok": [[bpm, met, offset]...]} or {"err": cls})"""
+    entry = case.get("entry", "snap")
+    if entry == "snap":
+        cs = sorted(case["cs"], key=lambda c: c.get("k", 0))
+        return drv.call("timing.from_snap", t0=case["t0"], cs=j_cs(cs), reseat=False)
+    rows = handed_rows(case, mode)
+    if entry == "offset":
+        return drv.call("timing.from_offset", tm=[[R(b), R(m), R(o)] for b, m, o in rows])
+    if entry == "raw":
+        return dict(ok=[[R(b), R(m), R(o)] for b, m, o in rows])
+    return drv.call("timing.bpmlist_tm", rows=[[R(o), R(b), R(m)] for b, m, o in rows])
+
+
+def stored_agree(tm, m_tm, mode):
+    """the list the TimingMap stores right after construction = the model's"""
+    if "ok" not in m_tm:
+        return False
+    got = [(Fr(b.bpm), Fr(b.metronome), Fr(b.offset)) for b in tm.bpm_changes_offset]
+    want = [(F(b), F(m), F(o)) for b, m, o in m_tm["ok"]]
+    if len(got) != len(want):
+        return False
+    return all(same(g[0], w[0], mode) and g[1] == w[1] and same(g[2], w[2], mode) for g, w in zip(got, want))
+
+
 def run(case, drv):
     claim = case["claim"]
     return dict(offsets=run_offsets, roundtrip=run_roundtrip, snap=run_snap, beats=run_beats)[claim](case, drv)
@@ -285,28 +441,33 @@ def run_offsets(case, drv):
     mode = case["mode"]
     cs, qs = case["cs"], case["qs"]
     jq = [j_q(cs, q) for q in qs]
-    tags = [mode, f"n{min(len(cs), 4)}"]
-    # --- implementation
-    with exact_mode(mode == "exact"):
-        try:
-            bcs = build_impl_changes(cs, mode)
-            tm = TimingMap.from_bpm_changes_snap(num(case["t0"], mode), bcs, reseat=False)
-            snaps = [Snap(q[0], F(q[1]), None if q[2] is None else F(q[2])) for q in jq]
-            impl = ("ok", [Fr(x) for x in tm.offsets(snaps)] if snaps else [])
-            impl_tm = [Fr(b.offset) for b in tm.bpm_changes_offset]
-        except Exception as e:
-            impl = ("err", err_class(e))
-            impl_tm = None
+    entry = case.get("entry", "snap")
+    tags = [mode, f"n{min(len(cs), 4)}", "entry-" + entry]
+    if any(a["bpm"] == b["bpm"] and a["met"] != b["met"] for a, b in zip(cs[:-1], cs[1:])):
+        tags.append("time-signature-only-change")
+    if [c.get("k", 0) for c in cs] != sorted(c.get("k", 0) for c in cs):
+        tags.append("list-unordered")
     # --- model
-    m_tm = drv.call("timing.from_snap", t0=case["t0"], cs=j_cs(cs), reseat=False)
+    m_tm = model_tm(case, drv, mode)
     if "ok" in m_tm:
         # queries are normalised by Snap(...) exactly as the implementation constructs them
         m = drv.call("timing.offsets_q", tm=m_tm["ok"], qs=jq)
     else:
         m = m_tm
+    # --- implementation
+    st_agree = True
+    with exact_mode(mode == "exact"):
+        try:
+            tm = build_tm(case, mode)
+            st_agree = stored_agree(tm, m_tm, mode)
+            snaps = [Snap(q[0], F(q[1]), None if q[2] is None else F(q[2])) for q in jq]
+            impl = ("ok", [Fr(x) for x in tm.offsets(snaps)] if snaps else [])
+        except Exception as e:
+            impl = ("err", err_class(e))
     # --- spec
     dom = dom_of(drv, cs)
-    in_dom = dom["sorted"] and dom["grid_compatible"] and dom["metronome_ok"]
+    qok = drv.call("timing.queries_ok", cs=j_cs(cs), qs=jq)
+    in_dom = in_dom_of(dom) and qok.get("ok") is True
     spec = drv.call("timing.time_at_q", t0=case["t0"], cs=j_cs(cs), qs=jq)
     agree = True
     ok = True
@@ -335,8 +496,11 @@ def run_offsets(case, drv):
             for a, s in zip(vals, spec["ok"]):
                 if s is not None and not same(a, F(s), mode):
                     ok = False
+        if not st_agree:
+            agree = False
         if not (agree and ok):
-            detail = dict(impl=[str(v) for v in vals], model=m, spec=spec)
+            detail = dict(impl=[str(v) for v in vals], model=m, spec=spec, stored_agree=st_agree,
+                          stored=[[str(b.bpm), str(b.metronome), str(b.offset)] for b in tm.bpm_changes_offset])
     if not (dom["sorted"] and dom["metronome_ok"]):
         ok = True      # a metronome change inside a measure has no agreed meaning: the specification is silent
     kf = None
@@ -350,19 +514,23 @@ def run_offsets(case, drv):
 
 
 def _tm_from(case, mode):
-    RAConst, TimingMap, BpmChangeSnap, Snap, Snapper = _imports()
-    bcs = build_impl_changes(case["cs"], mode)
-    return TimingMap.from_bpm_changes_snap(num(case["t0"], mode), bcs, reseat=False)
+    return build_tm(case, mode)
 
 
 def run_roundtrip(case, drv):
     RAConst, TimingMap, BpmChangeSnap, Snap, Snapper = _imports()
     mode = case["mode"]
     cs, ts = case["cs"], case["ts"]
-    tags = [mode, f"n{min(len(cs), 4)}"]
+    tags = [mode, f"n{min(len(cs), 4)}", "entry-" + case.get("entry", "snap")]
+    if any(a["bpm"] == b["bpm"] and a["met"] != b["met"] for a, b in zip(cs[:-1], cs[1:])):
+        tags.append("time-signature-only-change")
+    m_tm = model_tm(case, drv, mode)
+    m = drv.call("timing.roundtrip", tm=m_tm["ok"], qs=ts) if "ok" in m_tm else m_tm
+    st_agree = True
     with exact_mode(mode == "exact"):
         try:
             tm = _tm_from(case, mode)
+            st_agree = stored_agree(tm, m_tm, mode)
             offs = [num(t, mode) for t in ts]
             sn = tm.snaps(offs, Snapper())
             impl_sn = [[int(s.measure), R(Fr(s.beat)), R(Fr(s.metronome))] for s in sn]
@@ -370,10 +538,8 @@ def run_roundtrip(case, drv):
             impl = ("ok", impl_sn, back)
         except Exception as e:
             impl = ("err", err_class(e))
-    m_tm = drv.call("timing.from_snap", t0=case["t0"], cs=j_cs(cs), reseat=False)
-    m = drv.call("timing.roundtrip", tm=m_tm["ok"], qs=ts) if "ok" in m_tm else m_tm
     dom = dom_of(drv, cs)
-    in_dom = dom["sorted"] and dom["grid_compatible"] and dom["metronome_ok"]
+    in_dom = in_dom_of(dom)
     spec = drv.call("timing.roundtrip_spec", t0=case["t0"], cs=j_cs(cs), qs=ts)["ok"]
     ok, agree, boundary, maxdev = True, True, False, 0.0
     detail = {}
@@ -389,16 +555,25 @@ def run_roundtrip(case, drv):
             agree = False
         else:
             msn, mback = m["ok"]["snaps"], m["ok"]["back"]
+            near_change = near_change_fn(case, mode)
+            flipped = set()
             for i, (a, b) in enumerate(zip(impl_sn, msn)):
                 if a[0] != b[0] or F(a[1]) != F(b[1]):
-                    # snapping is a discontinuity: accept a flip only next to a midpoint
+                    flipped.add(i)
+                    # snapping is a discontinuity: accept a flip only next to a midpoint; so is the choice of the
+                    # segment: accept either one only for a time within the band of a change's time
                     if spec[i]["tie_margin"] is not None and abs(F(spec[i]["tie_margin"])) < Fr(1, 2 ** 40):
                         boundary = True
+                    elif near_change(F(ts[i])):
+                        boundary = True
+                        tags.append("float-boundary-segment")
                     else:
                         agree = False
-            for a, b in zip(back, mback):
+            for i, (a, b) in enumerate(zip(back, mback)):
+                if i in flipped:
+                    continue         # a tolerated flip (above) legitimately moves the time; judged by the spec below
                 maxdev = max(maxdev, dev(a, F(b)))
-                if not same(a, F(b), mode) and not boundary:
+                if not same(a, F(b), mode):
                     agree = False
         for i, (t, a) in enumerate(zip(ts, back)):
             s = spec[i]
@@ -413,8 +588,10 @@ def run_roundtrip(case, drv):
                 lim = F(s["beat_len"]) / 192
                 if abs(Fr(a) - t) > lim + (0 if mode == "exact" else Fr(1, 2 ** 30)):
                     ok = False
+        if not st_agree:
+            agree = False
         if not (ok and agree):
-            detail = dict(impl_snaps=impl_sn, impl_back=[str(b) for b in back], model=m, spec=spec)
+            detail = dict(impl_snaps=impl_sn, impl_back=[str(b) for b in back], model=m, spec=spec, stored_agree=st_agree)
     kf = "D22" if (not ok and not dom["grid_compatible"]) else None
     nontrivial = len(cs) >= 2 and any(not s["on_grid"] for s in spec) or len(ts) >= 3
     if any(not s["on_grid"] for s in spec):
@@ -429,10 +606,15 @@ def run_snap(case, drv):
     x = F(case["x"])
     xi = x if mode == "exact" else float(x)
     xe = Fr(xi)                      # what the implementation actually received
-    sn = Snapper()
-    y = Fr(sn.snap(xi))
-    y2 = Fr(sn.snap(y if mode == "exact" else float(y)))
     m = F(drv.call("timing.snap", x=R(xe), n=96)["ok"])
+    try:
+        sn = Snapper()
+        y = Fr(sn.snap(xi))
+        y2 = Fr(sn.snap(y if mode == "exact" else float(y)))
+    except Exception as e:
+        # the snapper must return a value for every non-negative beat
+        return dict(claim="snap", ok=False, agree=False, dom=True, tags=[mode, "impl-raises"], nontrivial=True,
+                    detail=dict(x=str(xe), impl=err_class(e), model=str(m)))
     sp = drv.call("timing.snap_spec", x=R(xe), y=R(y), n=96)["ok"]
     boundary = False
     agree = (y == m)
@@ -443,8 +625,26 @@ def run_snap(case, drv):
     if not agree and sp["member"] and abs(F(sp["margin"])) < Fr(1, 2 ** 40):
         agree = True
         boundary = True
-    detail = {} if (ok and agree) else dict(x=str(xe), impl=str(y), impl_twice=str(y2), model=str(m), spec=sp)
-    return dict(claim="snap", ok=ok, agree=agree, dom=True, tags=[mode, "on-grid" if sp["x_on_grid"] else "off-grid"],
+    tags = [mode, "on-grid" if sp["x_on_grid"] else "off-grid"]
+    fg = None
+    if mode == "float":
+        # second, equality-based stream: the model on the exact values of the doubles n/d.  The code's
+        # `rem - val[ix-1]` and `val[ix] - rem` are exact there (Sterbenz) unless rem < val[1]/2, so the branch
+        # taken - including the tie rule - must be the model's.
+        G, FG, FGi, FGj = py_grid()
+        q = math.floor(xe)
+        rem = xe - q
+        v = F(drv.call("timing.snap_g", x=R(xe), g=FGj)["ok"]) - q
+        exp_y = G[FGi[v]] + q if v in FGi else None
+        strict = not (rem < FG[1] and abs(2 * rem - FG[1]) < Fr(1, 2 ** 50))
+        fg = dict(model_on_doubles=str(exp_y))
+        i = FGi.get(v)
+        if i is not None and i > 0 and (rem - FG[i - 1] == FG[i] - rem or (i + 1 < len(FG) and rem - FG[i] == FG[i + 1] - rem)):
+            tags.append("exact-tie")
+        if strict and exp_y != y:
+            agree = False
+    detail = {} if (ok and agree) else dict(x=str(xe), impl=str(y), impl_twice=str(y2), model=str(m), spec=sp, fg=fg)
+    return dict(claim="snap", ok=ok, agree=agree, dom=True, tags=tags,
                 nontrivial=not sp["x_on_grid"], boundary=boundary, detail=detail)
 
 
@@ -452,16 +652,18 @@ def run_beats(case, drv):
     RAConst, TimingMap, BpmChangeSnap, Snap, Snapper = _imports()
     mode = case["mode"]
     cs, ts = case["cs"], case["ts"]
+    m_tm = model_tm(case, drv, mode)
+    m = drv.call("timing.beats", tm=m_tm["ok"], qs=ts) if "ok" in m_tm else m_tm
+    st_agree = True
     with exact_mode(mode == "exact"):
         try:
             tm = _tm_from(case, mode)
+            st_agree = stored_agree(tm, m_tm, mode)
             impl = ("ok", [Fr(b) for b in tm.beats([num(t, mode) for t in ts], Snapper())])
         except Exception as e:
             impl = ("err", err_class(e))
-    m_tm = drv.call("timing.from_snap", t0=case["t0"], cs=j_cs(cs), reseat=False)
-    m = drv.call("timing.beats", tm=m_tm["ok"], qs=ts) if "ok" in m_tm else m_tm
     dom = dom_of(drv, cs)
-    in_dom = dom["sorted"] and dom["grid_compatible"] and dom["metronome_ok"]
+    in_dom = in_dom_of(dom)
     spec = drv.call("timing.roundtrip_spec", t0=case["t0"], cs=j_cs(cs), qs=ts)["ok"]
     ok, agree, boundary = True, True, False
     detail = {}
@@ -471,12 +673,19 @@ def run_beats(case, drv):
         detail = dict(impl=impl, model=m)
     else:
         vals = impl[1]
-        near_tie = any(s["tie_margin"] is not None and abs(F(s["tie_margin"])) < Fr(1, 2 ** 40) for s in spec)
-        if "ok" not in m or len(m["ok"]) != len(vals) or any(a != F(b) for a, b in zip(vals, m["ok"])):
-            if near_tie:
-                boundary = True
-            else:
-                agree = False
+        near_change = near_change_fn(case, mode)
+        if "ok" not in m or len(m["ok"]) != len(vals):
+            agree = False
+        else:
+            # with one metronome the running sum telescopes: the count of a time depends on that time's snap only,
+            # so a discontinuity (snapping tie, segment choice at a change's time) is accepted per time
+            for i, (a, b) in enumerate(zip(vals, m["ok"])):
+                if a != F(b):
+                    tie = spec[i]["tie_margin"] is not None and abs(F(spec[i]["tie_margin"])) < Fr(1, 2 ** 40)
+                    if tie or near_change(F(ts[i])):
+                        boundary = True
+                    else:
+                        agree = False
         # spec: beats of two times differ by exactly their beat distance (on-grid times), within 1/96 otherwise;
         # and never decrease with time
         for i in range(len(ts)):
@@ -493,8 +702,11 @@ def run_beats(case, drv):
                     ok = False
                 if F(ts[i]) <= F(ts[k]) and d_impl < 0:
                     ok = False
+        if not st_agree:
+            agree = False
         if not (ok and agree):
-            detail = dict(impl=[str(v) for v in vals], model=m, spec=spec)
+            detail = dict(impl=[str(v) for v in vals], model=m, spec=spec, stored_agree=st_agree)
     kf = "D22" if (not ok and not dom["grid_compatible"]) else None
-    return dict(claim="beats", ok=ok, agree=agree, dom=in_dom, kf=kf, tags=[mode, f"n{min(len(cs), 4)}"],
+    return dict(claim="beats", ok=ok, agree=agree, dom=in_dom, kf=kf,
+                tags=[mode, f"n{min(len(cs), 4)}", "entry-" + case.get("entry", "snap")],
                 nontrivial=len(cs) >= 2 and len(ts) >= 2, boundary=boundary, detail=detail)
